@@ -208,6 +208,12 @@ decode_block(const uint32_t *buf, size_t nwords, size_t step, size_t ospace,
     n_fastpath_blocks++;
   for (;;) {
     rv = retrieve(&ds, &bs);
+    if (bs.data > bs.limit) {
+      printf("MISMATCH resume-overread words=%ld\n", (long)(bs.data - bs.limit));
+      n_mismatch++;
+      rv = ERR_EOF;
+      break;
+    }
     if (rv != MORE)
       break;
     n_resume_points++;
